@@ -48,19 +48,22 @@ Definition veq (a b : value) : bool :=
   end.
 
 (* ---------- closures of the mini-language (defunctionalised; the yarel text is in IterLang.render) ---------- *)
-Inductive fn : Type := AddK (k : Z) | MulK (k : Z) | Tag (t : list byte).
+Inductive fn : Type := AddK (k : Z) | MulK (k : Z) | Tag (t : list byte) | ConstK (k : Z).
 Inductive pr : Type := IsEven | GtK (k : Z) | NeV (v : value) | TrueP | FalseP.
 Inductive rd : Type := RSum | RCount.
 
 Definition num_text (z : Z) : list byte := bytes_of_string (show_Z z).
 
-(* helpers addk / mulk / tag of the prelude dispatch on type(x): anything else is returned unchanged *)
+(* helpers addk / mulk / tag of the prelude dispatch on type(x): anything else is returned unchanged;
+   ConstK k = |x| k maps EVERY value, also an instance: it would expose an adapter that applied the function to
+   the sentinel *)
 Definition apply_fn (f : fn) (v : value) : value :=
   match f, v with
   | AddK k, VNum z => VNum (z + k)
   | MulK k, VNum z => VNum (z * k)        (* generator: k > 0 only (0 * negative prints -0) *)
   | Tag t, VNum z => VStr (num_text z ++ t)
   | Tag t, VStr s => VStr (s ++ t)
+  | ConstK k, _ => VNum k
   | _, _ => v
   end.
 
